@@ -600,18 +600,25 @@ def check_tinylfu(rep, fl):
     cr = [(bi, t) for bi, t in calls_to(tr, CMS + "::reset") if norm(tr.call_args(t)[0]) == ctr]
     okr = len(zs) == 1 and len(dr) == 1 and len(cr) == 1 and okw
     if okr:
-        want = ("not", ("atom", ("bin", "Lt", w, samples)))
+        # the test reads the stored field after the write, or a local that holds the value just written
+        # (`let w = self.w + 1; self.w = w; if w >= self.samples`)
+        tests = [norm(("bin", "Lt", w, samples)), norm(("bin", "Lt", ws[0][2], samples))]
         acts = [(zs[0][0], zs[0][1]), (dr[0][0], term_idx(tr, dr[0][0])), (cr[0][0], term_idx(tr, cr[0][0]))]
         for nk in acts:
             # branch history: the test was taken before `w = 0` overwrote the variable it speaks about
-            good, cx = all_states(tr, at, nk, NOT(A(("bin", "Lt", w, samples))), hist=True)
+            good, cx = all_states(tr, at, nk, OR(*[NOT(A(t_)) for t_ in tests]), hist=True)
             okr = okr and good and nk[0] in tr.reachable(ws[0][0])
+        n_edges = 0
         for bi in tr.live_blocks():
             t = tr.term(bi)
             if t and t["k"] == "switch":
                 for tgt, atom, pol in edge_literals(tr, bi):
-                    if atom == norm(("bin", "Lt", w, samples)) and pol is False:
+                    if atom is not None and (atom in tests or norm(tr.expand(atom)) in tests) and pol is False:
+                        n_edges += 1
                         okr = okr and all(must_pass_through(tr, [nk[0]], from_bi=tgt) for nk in acts)
+                        # a test on the stored field comes after the write; one on the local may come any time
+                        okr = okr and (norm(tr.expand(atom)) == tests[1] or atom == tests[1] or bi in tr.reachable(ws[0][0]) or bi == ws[0][0])
+        okr = okr and n_edges >= 1
     rep.check(okw and okr, "R13.6", fl, tr, "try_reset", "w += 1 on every recording; exactly when w >= samples: w = 0, doorkeeper.reset(), ctr.reset()",
               "aging is not `w += 1; if w >= samples { w = 0; doorkeeper.reset(); ctr.reset() }`")
     # clear
